@@ -972,9 +972,14 @@ def check_argv_complete(chk, m, cfg, L):
                 bound = any(strip_casts(c)[0] == "icmp" and strip_casts(c)[1] in ("ult", "slt") and strip_casts(strip_casts(c)[2]) == iv and
                             strip_casts(c)[3][0] == "c" and strip_casts(c)[3][2] == N and t for c, t, i in p.conds)
                 arrivals = [q for s1, q in segs if q.end == "cut:" + s0 and s1 != s0]
-                from_argc = bool(arrivals) and all(
-                    paths.contains((getattr(q, "carried", None) or {}).get(iv[1], ("?",)),
-                                   lambda x: x[0] == "ld" and ptr_parts(x[1]) == (("arg", ca), argc_off, ())) for q in arrivals)
+                def is_argc(q):
+                    v = (getattr(q, "carried", None) or {}).get(iv[1], ("?",))
+                    if paths.contains(v, lambda x: x[0] == "ld" and ptr_parts(x[1]) == (("arg", ca), argc_off, ())):
+                        return True
+                    # a local count that this arrival has just stored into argc
+                    return any(e2.kind == "store" and ptr_parts(e2.ptr) == (("arg", ca), argc_off, ()) and
+                               strip_casts(e2.val) == strip_casts(v) for e2 in q.events)
+                from_argc = bool(arrivals) and all(is_argc(q) for q in arrivals)
                 exits = [q for s1, q in segs if s1 == s0 and q.end == "ret"]
                 if stepped and bound and from_argc and exits:
                     pad = True
